@@ -356,21 +356,14 @@ class YP(object):
         else:
             raise YPException('retract: callable term expected')
 
-        try:
-            remaining_clauses = self._find_predicates(name, len(args))[:]
-        except YPException as e:
-            return
-        i = 0
-        while i < len(remaining_clauses):
-            clause = remaining_clauses[i]
-            match = False
+        # logical update view: enumerate the facts as they are now; a fact that has been
+        # removed in the meantime is skipped, facts added in the meantime are kept
+        for clause in self._clauses(name, len(args)):
             for cut in clause.match(args):
-                match = True
-                del remaining_clauses[i]
-                self._update_predicate(self.atom(name), len(args), remaining_clauses)
-                yield False
-            if not match:
-                i += 1
+                current = self._clauses(name, len(args))
+                if clause in current:
+                    self._update_predicate(self.atom(name), len(args), [c for c in current if c is not clause])
+                    yield False
 
     def retractall(self, term):
         '''retractall(Term) removes all dynamic facts matching Term, without backtracking over identical clauses.'''
@@ -383,12 +376,8 @@ class YP(object):
             args = []
         else:
             raise YPException('retractall: callable term expected')
-        try:
-            clauses = self._find_predicates(name, len(args))
-        except YPException as e:
-            clauses = []
         remaining_clauses = []
-        for clause in clauses:
+        for clause in self._clauses(name, len(args)):
             match = False
             for cut in clause.match(args):
                     match = True
@@ -506,22 +495,23 @@ class YP(object):
         except KeyError:
             raise YPException('Unknown predicate: %s/%d' % (name, arity))
 
+    def _clauses(self, name, arity):
+        """the current list of clauses of name/arity (empty if there are none). The lists in
+        the store are never changed in place, so the result is a snapshot."""
+        return self._predicates_store.get((name, arity), [])
+
     def _update_predicate(self, name, arity, clauses):
         self._predicates_store[(name.name(), arity)] = clauses
 
     def assert_fact(self, name, values, append=True):
         '''insert name(values) in the set of facts. If append is False, insert the
         fact at the beginning, otherwise at the end.'''
-        try:
-            clauses = self._find_predicates(name.name(), len(values))
-            # indexedanswers
-        except YPException as e:
-            clauses = []
+        clauses = self._clauses(name.name(), len(values))
         answer = Answer([get_value(v) for v in values])
         if append:
-            clauses.append(answer)
+            clauses = clauses + [answer]
         else:
-            clauses.insert(0, answer)
+            clauses = [answer] + clauses
         self._update_predicate(name, len(values), clauses)
 
     def query(self, name, args):
